@@ -318,10 +318,13 @@ def check_quadrature(c, ps, t, out):
     """the rule of every cell integrates x^j, j < 2 n, over the cell (n = degree//2 + 1)"""
     br = fr(ps._rspline.breaks)
     n = t['nq']
+    # the exactness is the REQUESTED one (the constructor's degree argument): polynomials up to degree 2 (degree//2 + 1) - 1,
+    # whatever number of points the constructor chose to store
+    nreq = max(n, c['qdeg'] // 2 + 1) if 'qdeg' in c else n
     worst = 0.0
     for cell in range(t['nc']):
         a, b = br[cell], br[cell + 1]
-        for j in range(2 * n):
+        for j in range(2 * nreq):
             ex = (b ** (j + 1) - a ** (j + 1)) / (j + 1)
             got = sum(t['w'][q] * t['mf'][cell] * t['pts'][cell][q] ** j for q in range(n))
             scale = sum(abs(t['w'][q] * t['mf'][cell] * t['pts'][cell][q] ** j) for q in range(n))
@@ -333,7 +336,8 @@ def check_quadrature(c, ps, t, out):
         kind = 'nonuniform-breaks' if c['bkind'] == 'nonuniform' else 'rule'
         _fail(out, 'DiffEqSolver.__init__:%s' % kind,
               'the quadrature rule stored by the constructor (points _evalPts, weights _weights*_multFactor) does not '
-              'integrate x^j, j < %d, over every cell: relative defect %.3g (breaks %s)' % (2 * n, worst, [float(x) for x in br]))
+              'integrate x^j, j < %d (requested exactness %s, %d points stored), over every cell: relative defect %.3g (breaks %s)'
+              % (2 * nreq, c.get('qdeg'), n, worst, [float(x) for x in br]))
 
 
 def check_ranges(c, ps, t, out):
